@@ -31,7 +31,6 @@ Event == Trace[l]
 Step ==
   /\ l <= Len(Trace)
   /\ l' = l + 1
-  /\ TLCSet(1, l)
   /\ CASE Event.k = "ns" ->
             /\ NsOk(Event.prefix, Event.exp)
             /\ ns' = ns \cup {<<Event.prefix, Event.exp>>}
@@ -51,6 +50,7 @@ Step ==
             /\ UNCHANGED <<ns, ids>>
        [] Event.k = "reset" ->
             /\ ns' = {} /\ ids' = {}
+  /\ TLCSet(1, l)        \* last conjunct: only a line that was consumable moves the high-water mark
 
 Init == ns = {} /\ ids = {} /\ l = 1 /\ TLCSet(1, 0)
 Spec == Init /\ [][Step]_tvars
